@@ -382,6 +382,13 @@ def standin_roundtrip(tier, seed):
     cases += 1
     if cirq.CZTargetGateset(preserve_moment_structure=False, reorder_operations=True) == cirq.CZTargetGateset():
         fails.append(dict(args=dict(a="cirq.CZTargetGateset(preserve_moment_structure=False, reorder_operations=True)", b="cirq.CZTargetGateset()"), failed="different-values-compare-equal", clause="two target gatesets with different compilation options compare equal"))
+    cm4 = np.array([[0.9, 0.1, 0, 0], [0.2, 0.8, 0, 0], [0, 0, 1, 0], [0, 0, 0, 1.0]])
+    ta, tb = (cirq.TensoredConfusionMatrices([cm4], [order], repetitions=10, timestamp=1.0) for order in ([q_[0], q_[1]], [q_[1], q_[0]]))
+    cases += 1
+    if (ta == tb or cirq.approx_eq(ta, tb)) and not np.allclose(ta.confusion_matrix(q_[:2]), tb.confusion_matrix(q_[:2])):
+        fails.append(dict(args=dict(a=repr(ta)[:300], b=repr(tb)[:300]), failed="different-values-compare-equal", clause="two TensoredConfusionMatrices with different confusion_matrix([q0, q1]) compare equal"))
+    cases += 1
+    _laws(ta, "TensoredConfusionMatrices", fails, dict(family="values filled by use / long integers / vendor metadata", value=repr(ta)[:300]), imp)
     for x, y in pairs:
         cases += 1
         if x == y:
